@@ -231,7 +231,9 @@ fn main() {
         .position(|x| x == "--e2e")
         .and_then(|i| a.extra.get(i + 1))
         .and_then(|v| v.parse().ok())
-        .unwrap_or(if a.tier == "thorough" { 6000 } else { 150 });
+        // thorough: 1200, not the 6000 of DESIGN.md: 6000 scenarios (~250 k loopback connections in
+        // 10 min) exhausted the ephemeral ports of the shared machine (see docs/C20.md)
+        .unwrap_or(if a.tier == "thorough" { 1200 } else { 150 });
     if let Some(p) = &a.replay {
         for c in read_cases(p) {
             if let Some(o) = run_case(&c) {
